@@ -274,7 +274,7 @@ impl Gate {
     }
 }
 
-fn waker_thread(chans: Vec<(Arc<Chan>, bool, u32)>, ops: Vec<(usize, WOp)>, gate: Option<Arc<Gate>>) {
+fn waker_thread(chans: Vec<(Arc<Chan>, bool, u32)>, ops: Vec<(usize, WOp)>, gate: Option<Arc<Gate>>, gone: Option<Arc<Gate>>) {
     if let Some(g) = gate {
         g.wait();
     }
@@ -337,7 +337,13 @@ fn waker_thread(chans: Vec<(Arc<Chan>, bool, u32)>, ops: Vec<(usize, WOp)>, gate
             }
         }
     }
-    // kept wakers: most of their children are finished by now (stale), the collection may be gone
+    // kept wakers: most of their children are finished by now (stale); some threads hold on to
+    // them until the collection itself has been dropped
+    if let Some(g) = gone {
+        if !kept.is_empty() {
+            g.wait();
+        }
+    }
     for (i, (c, w)) in kept.into_iter().enumerate() {
         let done = chans[c].0.st.lock().unwrap().done;
         if done {
@@ -470,12 +476,17 @@ pub fn scenario(mode: Mode, max_threads: usize, max_children: usize) {
         open: Mutex::new(false),
         cv: Condvar::new(),
     });
+    let gone_gate = Arc::new(Gate {
+        open: Mutex::new(false),
+        cv: Condvar::new(),
+    });
     let handles: Vec<_> = per_thread
         .into_iter()
         .map(|ops| {
             let chans = chans.clone();
-            let g = if rng.gen_bool(0.6) { Some(gate.clone()) } else { None };
-            spawn(move || waker_thread(chans, ops, g))
+            let g = if rng.gen_bool(crate::facade::GATE_PROB) { Some(gate.clone()) } else { None };
+            let d = if rng.gen_bool(0.5) { Some(gone_gate.clone()) } else { None };
+            spawn(move || waker_thread(chans, ops, g, d))
         })
         .collect();
 
@@ -581,6 +592,7 @@ pub fn scenario(mode: Mode, max_threads: usize, max_children: usize) {
     gate.open();
     drop(subj);
     COLLECTION_GONE.with(|p| p.set(true));
+    gone_gate.open();
     reg::note_order(5);
     for h in handles {
         h.join().unwrap();
